@@ -625,25 +625,55 @@ type stackIterator struct {
 	eng           *engine
 	pc            uint64
 
+	// c and onHostCall are the arguments of reset: the stack is unwound on demand, stackIteratorInitialFrames
+	// at first, as listeners are invoked on every call but rarely walk the whole stack.
+	c          *callEngine
+	onHostCall bool
+	// unwindLimit is the limit given to unwindStackUpTo to get retAddrs, and zero once the whole stack was unwound.
+	unwindLimit int
+
 	currentDef *wasm.FunctionDefinition
 }
 
+// stackIteratorInitialFrames is the number of frames a stackIterator unwinds before the first call of Next.
+const stackIteratorInitialFrames = 32
+
 func (si *stackIterator) reset(c *callEngine, onHostCall bool) {
-	if onHostCall {
+	si.c, si.onHostCall = c, onHostCall
+	si.unwind(stackIteratorInitialFrames)
+	si.retAddrCursor = 0
+	si.eng = c.parent.parent.parent
+}
+
+// unwind sets retAddrs to the first limit return addresses of the stack, or to all of them if there are fewer.
+func (si *stackIterator) unwind(limit int) {
+	c := si.c
+	if si.onHostCall {
 		si.retAddrs = append(si.retAddrs[:0], uintptr(unsafe.Pointer(c.execCtx.goCallReturnAddress)))
 	} else {
 		si.retAddrs = si.retAddrs[:0]
 	}
-	si.retAddrs = unwindStack(uintptr(unsafe.Pointer(c.execCtx.stackPointerBeforeGoCall)), c.execCtx.framePointerBeforeGoCall, c.stackTop, si.retAddrs)
-	si.retAddrs = si.retAddrs[:len(si.retAddrs)-1] // the last return addr is the trampoline, so we skip it.
-	si.retAddrCursor = 0
-	si.eng = c.parent.parent.parent
+	si.retAddrs = unwindStackUpTo(uintptr(unsafe.Pointer(c.execCtx.stackPointerBeforeGoCall)), c.execCtx.framePointerBeforeGoCall, c.stackTop, si.retAddrs, limit)
+	if len(si.retAddrs) < limit {
+		limit = 0
+	}
+	// The last return addr of the stack is the trampoline, so we skip it. A partial list also
+	// ends one entry early, as its last entry might be that one.
+	si.retAddrs = si.retAddrs[:len(si.retAddrs)-1]
+	si.unwindLimit = limit
 }
 
 // Next implements the same method as documented on experimental.StackIterator.
 func (si *stackIterator) Next() bool {
 	if si.retAddrCursor >= len(si.retAddrs) {
-		return false
+		if si.unwindLimit == 0 {
+			return false
+		}
+		// The stack does not change while the listener runs: unwind it again, further.
+		si.unwind(si.unwindLimit * 4)
+		if si.retAddrCursor >= len(si.retAddrs) {
+			return false
+		}
 	}
 
 	addr := si.retAddrs[si.retAddrCursor]
